@@ -190,6 +190,15 @@ func (x *G) familyList() string {
 	var fs []string
 	for i := 0; i < n; i++ {
 		f := x.pick("family", families)
+		if x.chance("rndfamily", 3) {
+			// a family name of any words, unquoted: a sequence of identifiers none of which is a keyword
+			x.Feats["random-family-words"]++
+			var ws []string
+			for j, m := 0, 1+x.n("nfamwords", 2); j < m; j++ {
+				ws = append(ws, x.rndIdent("[A-Za-z][a-z]{2,9}"))
+			}
+			f = strings.Join(ws, " ")
+		}
 		if x.guard("noQuotedKeywordFamily") {
 			switch strings.ToLower(strings.Trim(f, "\"'")) {
 			case "serif", "inherit", "monospace", "initial", "sans-serif":
@@ -204,11 +213,27 @@ func (x *G) familyList() string {
 	return strings.Join(fs, x.pick("famsep", []string{",", ", ", " , "}))
 }
 
+var cssWords = map[string]bool{"serif": true, "inherit": true, "initial": true, "unset": true, "revert": true, "default": true, "bold": true, "bolder": true, "lighter": true, "normal": true, "italic": true, "oblique": true, "small": true, "large": true, "larger": true, "smaller": true, "medium": true, "cursive": true, "fantasy": true, "emoji": true, "math": true, "none": true, "auto": true, "caption": true, "icon": true, "menu": true, "margin": true, "padding": true, "inset": true, "color": true, "font": true, "flex": true, "width": true, "height": true, "filter": true, "content": true, "border": true, "outline": true, "background": true, "transform": true, "src": true, "top": true, "left": true, "right": true, "bottom": true}
+
+// rndIdent: an identifier of random letters that is no CSS keyword or property the generator or the oracle knows
+func (x *G) rndIdent(pattern string) string {
+	w := rapid.StringMatching(pattern).Draw(x.T, "rndident")
+	if cssWords[strings.ToLower(w)] || len(w) <= 4 {
+		w += "qz"
+	}
+	return w
+}
+
 // Decl draws one declaration "name:value".
 func (x *G) Decl() string {
-	k := x.n("prop", 41)
+	k := x.n("prop", 42)
 	var name, val string
 	switch k {
+	case 42:
+		// a property the minifier does not know, with a value it has no reason to touch
+		x.Feats["random-property"]++
+		name := x.rndIdent("[a-z]{3,9}(-[a-z]{2,6})?")
+		return name + x.ows() + ":" + x.ows() + x.pick("rndpropval", []string{"1 2 1 2", "a b a b", "x 1 x 1", "auto", "1 1 1 1", "a,b", "7 7", "none none"})
 	case 41:
 		// values with blocks, which are written without being processed: nothing but whitespace may change
 		x.Feats["unprocessed-value"]++
